@@ -5,7 +5,7 @@ tie: paired runs (this file).
 
 Streams
   daily    synthetic daily / billing models (synth_daily) x reporting frames x usage alterations
-           {orig, scaled, negated (x -1.5 + 0.25), shuffled, 30 % NaN, all NaN, dropped}: implementation vs Model/Rows.v (row by row, in Coq)
+           {orig, scaled, negated (x -1.5 + 0.25), shuffled, 30 % NaN, 30 % exactly 0, x 0, all NaN, dropped}, electricity and gas: implementation vs Model/Rows.v (row by row, in Coq)
            AND pairwise (oracle)
   fit      one really fitted daily and one billing model through the public data classes: pairwise
   hourly   really fitted HourlyModel (non-solar and solar), reloaded from JSON for every run: pairwise + outcome and
@@ -37,7 +37,7 @@ logging.disable(logging.CRITICAL)
 
 IMPORTS = ("From Coq Require Import QArith.\nFrom V Require Import Model.Dst Model.DstRun Model.Rows Model.RowsRun "
            "Model.HourlyFlow Model.CounterfactualFlows Model.CounterfactualRun.")
-ALTS = ["orig", "scaled", "negated", "shuffled", "nan30", "allnan", "dropped"]
+ALTS = ["orig", "scaled", "negated", "shuffled", "nan30", "zeros30", "times0", "allnan", "dropped"]
 HZONES = ["US/Pacific", "US/Eastern", "Europe/Berlin", "Australia/Sydney", "UTC", "Asia/Kolkata"]
 # (zone, month-day of a clock change in 2022) used to aim reporting windows at short / long days
 DST_DATES = {"US/Pacific": ["03-13", "11-06"], "US/Eastern": ["03-13", "11-06"], "Europe/Berlin": ["03-27", "10-30"],
@@ -62,6 +62,10 @@ def alter(fr, name, seed):
         a["observed"] = r.permutation(a["observed"].to_numpy())
     elif name == "nan30":
         a.loc[r.random(len(a)) < 0.3, "observed"] = np.nan
+    elif name == "zeros30":          # some readings replaced by exactly 0
+        a.loc[(r.random(len(a)) < 0.3) & a["observed"].notna().to_numpy(), "observed"] = 0.0
+    elif name == "times0":           # the whole column rescaled by 0
+        a["observed"] = a["observed"] * 0.0
     elif name == "allnan":
         a["observed"] = np.nan
     elif name == "dropped":
@@ -179,7 +183,7 @@ def gen_daily_case(rng, k):
     start = (pd.Timestamp("2019-01-01") + pd.Timedelta(days=rng.randrange(0, 2000))).strftime("%Y-%m-%d")
     return {"stream": "daily", "model": kind, "path": stream, "tz": rng.choice(sd.ZONES[:5]), "start": start, "n": n,
             "p_tnan": rng.choice([0.0, 0.0, 0.05, 0.3]), "p_tinf": rng.choice([0.0, 0.0, 0.03]) if stream == "injected" else 0.0,
-            "p_onan": rng.choice([0.0, 0.0, 0.1]), "seed": rng.randrange(2**31)}
+            "p_onan": rng.choice([0.0, 0.0, 0.1]), "electric": rng.random() < 0.5, "seed": rng.randrange(2**31)}
 
 
 def build_daily(case):
@@ -207,7 +211,7 @@ def daily_data(case, fr):
     has = "observed" in fr.columns
     if case["path"] == "injected":
         return sd.inject(case["model"], sd.layout(fr, has), case["tz"])
-    return sd.data_classes(case["model"])(fr, is_electricity_data=False)
+    return sd.data_classes(case["model"])(fr, is_electricity_data=bool(case.get("electric", False)))
 
 
 def cell(v):
@@ -314,7 +318,7 @@ def gen_subdaily_case(rng, k):
             "tz": rng.choice(["US/Pacific", "Europe/Berlin", "UTC"]),
             "start": rng.choice(["2022-01-10", "2022-06-06", "2022-07-18", "2022-08-01"]),
             "ndays": rng.choice([12, 25, 40]) if kind == "daily" else rng.choice([100, 150]),
-            "seed": rng.randrange(2**31)}
+            "electric": rng.random() < 0.5, "seed": rng.randrange(2**31)}
 
 
 def build_subdaily(case):
@@ -355,6 +359,13 @@ def alter_usage(usage, name, seed, billing):
         if not k.any():
             k[n // 2] = True
         u.iloc[:n] = np.where(k, np.nan, u.iloc[:n].to_numpy())
+    elif name == "zeros30":
+        k = r.random(n) < 0.3
+        if not k.any():
+            k[n // 2] = True
+        u.iloc[:n] = np.where(k & ~np.isnan(u.iloc[:n].to_numpy()), 0.0, u.iloc[:n].to_numpy())
+    elif name == "times0":
+        u = u * 0.0
     elif name == "allnan":
         u = u * np.nan
     elif name == "dropped":
@@ -367,11 +378,11 @@ def subdaily_data(case, temp, u):
     if case["via"] == "from_series":
         if u is None:
             raise LookupError("from_series needs a meter series")
-        return cls.from_series(u, temp, is_electricity_data=False)
+        return cls.from_series(u, temp, is_electricity_data=bool(case.get("electric", False)))
     fr = temp.to_frame()
     if u is not None:
         fr["observed"] = u.reindex(fr.index)
-    return cls(fr, is_electricity_data=False)
+    return cls(fr, is_electricity_data=bool(case.get("electric", False)))
 
 
 def detect_filler_clock():
@@ -417,7 +428,8 @@ def subdaily_stream(run, cases):
             if (case["model"] == "daily" and case["via"] == "frame" and case["usage"] == "daily" and o["ok"]):
                 has = np.zeros(len(temp), dtype=bool)
                 if u is not None:
-                    has = u.reindex(temp.index).notna().to_numpy()
+                    uu = u.where(u != 0) if case.get("electric") else u
+                    has = uu.reindex(temp.index).notna().to_numpy()
                 terms.append("(%s, %s, %s, %s)" % (
                     zlit(MI["z"]), coq_list([zlit(t) for t in wall_minutes(temp.index)]),
                     coq_list([coq_bool(bool(x)) for x in has]), coq_list([zlit(t) for t in wall_minutes(df_in.index)])))
@@ -426,16 +438,18 @@ def subdaily_stream(run, cases):
                                                                           case["usage_hour"], case["usage"]))
 
         def classify(a, b):
-            partial = {"nan30"}
-            blank = {"allnan", "dropped"}
+            elec = bool(case.get("electric", False))      # a reading of exactly 0 of electricity data is a missing reading
+            partial = {"nan30"} | ({"zeros30"} if elec else set())
+            blank = {"allnan", "dropped"} | ({"times0"} if elec else set())
             off_clock = case["start_hour"] != case["usage_hour"]
             ua, ub = present.get(a), present.get(b)
             def span(u):     # what from_series trims both series to (an all-NaN series is not trimmed)
-                return (u.first_valid_index() or u.index[0], u.last_valid_index() or u.index[-1])
+                v = u.where(u != 0) if elec else u
+                return (v.first_valid_index() or v.index[0], v.last_valid_index() or v.index[-1])
             if case["via"] == "from_series" and ua is not None and ub is not None and span(ua) != span(ub):
                 return "from-series-trims-weather-to-valid-usage-span"
             if case["model"] == "daily" and case["via"] == "frame" and case["usage"] == "daily" and off_clock \
-                    and MI["z"] == 0 and ((a in partial) != (b in partial)):
+                    and MI["z"] == 0 and (a in partial or b in partial):
                 return "filler-days-on-frame-start-clock"
             if case["model"] == "billing" and case["via"] == "frame" and off_clock and ((a in blank) != (b in blank)):
                 return "billing-filler-days-on-frame-start-clock"
@@ -472,7 +486,7 @@ def fit_stream(run, seeds):
             obs = {}
             for name in ALTS:
                 a = alter(rep, name, seed % 1000 + ALTS.index(name))
-                obs[name] = observe(lambda: model.predict(fl.daily_reporting(a), ignore_disqualification=True))
+                obs[name] = observe(lambda: model.predict(fl.daily_reporting(a, electric=seed % 2 == 0), ignore_disqualification=True))
                 run.count((vlib.sha(case), name))
         else:
             meter, temp = fl.billing_series(rng, tz=tz)
@@ -480,10 +494,14 @@ def fit_stream(run, seeds):
             meter2, temp2 = fl.billing_series(rng, tz=tz, start="2022-12-15")
             obs = {}
             r = np.random.default_rng(seed)
-            for name in ["orig", "scaled", "negated", "shuffled", "nan30", "allnan"]:
+            for name in ["orig", "scaled", "negated", "shuffled", "nan30", "zeros30", "times0", "allnan"]:
                 ms = meter2.copy()
                 if name == "scaled":
                     ms = ms * 2.5
+                elif name == "zeros30":
+                    ms.iloc[[1, 4]] = 0.0
+                elif name == "times0":
+                    ms = ms * 0.0
                 elif name == "negated":
                     ms = ms * -1.5
                 elif name == "shuffled":
@@ -492,7 +510,7 @@ def fit_stream(run, seeds):
                     ms.iloc[[2, 5, 6]] = np.nan
                 elif name == "allnan":
                     ms = ms * np.nan
-                obs[name] = observe(lambda: model.predict(fl.billing_reporting(ms, temp2), ignore_disqualification=True))
+                obs[name] = observe(lambda: model.predict(fl.billing_reporting(ms, temp2, electric=seed % 2 == 0), ignore_disqualification=True))
                 run.count((vlib.sha(case), name))
         for name, o in obs.items():
             run.dist("fit_outcome/" + kind, "ok" if o["ok"] else o["err"])
@@ -651,7 +669,7 @@ def gen_hourly_case(rng, kit, k):
     elif k % 5 == 4:
         mode = "truncated"
     return {"stream": "hourly", "kit_seed": kit.seed, "solar": kit.solar, "tz": kit.tz, "start": start, "ndays": ndays,
-            "mode": mode, "tgap": k % 3 == 1, "dups": k % 4 in (0, 2), "seed": rng.randrange(2**31)}
+            "mode": mode, "tgap": k % 3 == 1, "dups": k % 4 in (0, 2), "electric": k % 3 != 2, "seed": rng.randrange(2**31)}
 
 
 def labels_used(model, df_in):
@@ -685,16 +703,17 @@ def run_hourly_case(run, kit, case, pz, state_policy, terms, meta):
         rep.loc[np.random.default_rng(case["seed"] + 1).random(len(rep)) < 0.05, "temperature"] = np.nan
     if case.get("dups"):    # repeated time stamps whose records differ in which cells are NaN
         rep = add_duplicates(rep, case["seed"] + 2)
+    electric = bool(case.get("electric", True))
     variants = []   # (name, path, builder of the data object)
     raw = {}
     for name in ALTS:
         a = alter(rep, name, case["seed"] % 1000 + ALTS.index(name))
         raw[name] = a
-        variants.append((name, "class", (lambda a=a: fl.hourly_reporting(a))))
+        variants.append((name, "class", (lambda a=a: fl.hourly_reporting(a, electric=electric))))
     # usage written into the data object: gaps survive (the data class would interpolate them)
     r = np.random.default_rng(case["seed"])
     def inj(kind):
-        d = fl.hourly_reporting(rep)
+        d = fl.hourly_reporting(rep, electric=electric)
         v = d._df["observed"].to_numpy(dtype=float).copy()
         if kind == "inj_nan30":
             v[r.random(len(v)) < 0.3] = np.nan
@@ -704,7 +723,7 @@ def run_hourly_case(run, kit, case, pz, state_policy, terms, meta):
             dates = d._df.index.date
             v[dates == dates[int(r.integers(0, len(v)))]] = np.nan
         return inject_obs(d, v)
-    for kind in ["inj_nan30", "inj_one_gap", "inj_day_gap"]:
+    for kind in ["inj_nan30", "inj_day_gap"]:
         variants.append((kind, "injected", (lambda kind=kind: inj(kind))))
 
     drop = None
@@ -750,7 +769,7 @@ def run_hourly_case(run, kit, case, pz, state_policy, terms, meta):
     # ---- Coq: which record of a repeated stamp the data class kept (stream ds)
     for n in names:
         if n in raw and "interpolated_temperature" in obs[n]["df_in"].columns:
-            DS_TERMS.append(coq_ds(DEDUP["z"], raw[n], obs[n]["df_in"]))
+            DS_TERMS.append(coq_ds(DEDUP["z"], DEDUP["zero"], electric, raw[n], obs[n]["df_in"]))
             DS_META.append(dict(case, variant=n))
     run.dist("hourly_duplicated_stamps", int(rep.index.duplicated().sum()))
     same_wc = all([(d["utc0"], d["hours"], d["month"], d["dow"]) for d in skel[n]] ==
@@ -813,22 +832,26 @@ def run_hourly_case(run, kit, case, pz, state_policy, terms, meta):
 
 LABEL_TERMS, LABEL_META = [], []
 DS_TERMS, DS_META = [], []
-DEDUP = {"z": 0}
+DEDUP = {"z": 0, "zero": 0}
 
 
-def coq_ds(pz, a, df_in):
-    """records as the data class receives them (order kept; 0 usage of electricity data counts as missing) and, per stamp of
+def coq_ds(pz, zz, electric, a, df_in):
+    """records as the data class receives them (order kept; usage cell: NaN / exactly 0 / another value) and, per stamp of
     data.df, whether the temperature had to be gap-filled"""
     mins = minutes_of(a.index)
     wcols = [c for c in WEATHER_COLS if c in a.columns]
     has_w = a[wcols].notna().any(axis=1).to_numpy()
     has_t = a["temperature"].notna().to_numpy()
-    has_o = (a["observed"].notna() & (a["observed"] != 0)).to_numpy() if "observed" in a.columns else np.zeros(len(a), dtype=bool)
-    recs = coq_list(["(%s, %s, %s, %s)" % (zlit(t), coq_bool(te), coq_bool(w), coq_bool(o))
-                     for t, te, w, o in zip(mins, has_t, has_w, has_o)])
+    if "observed" in a.columns:
+        ov = a["observed"].to_numpy(dtype=float)
+        ucell = ["None" if x != x else ("(Some true)" if x == 0 else "(Some false)") for x in ov]
+    else:
+        ucell = ["None"] * len(a)
+    recs = coq_list(["(%s, %s, %s, %s)" % (zlit(t), coq_bool(te), coq_bool(w), o)
+                     for t, te, w, o in zip(mins, has_t, has_w, ucell)])
     flags = df_in["interpolated_temperature"].to_numpy().astype(bool)
     exp = coq_list(["(%s, %s)" % (zlit(t), coq_bool(f)) for t, f in zip(minutes_of(df_in.index), flags)])
-    return "(%s, %s, %s)" % (zlit(pz), recs, exp)
+    return "(%s, %s, %s, %s, %s)" % (zlit(pz), zlit(zz), coq_bool(electric), recs, exp)
 
 
 def ds_stream(run):
@@ -837,12 +860,25 @@ def ds_stream(run):
     if not terms:
         return
     bad = run.coq_cases("ds", IMPORTS, "", terms, "check_ds", shard=max(4, len(terms) // 12 + 1),
-                        case_type="(Z * list dsrec * list (Z * bool))%type")
+                        case_type="(Z * Z * bool * list dsrec * list (Z * bool))%type")
     if bad is None:
         run.proof_ok = False
         return
     for i in bad:
         run.corr_failures.append({"stream": "ds", "case": meta[i]})
+
+
+def detect_zero_policy():
+    """does the zero rule of electricity data touch the weather cells? (one reading of exactly 0)"""
+    idx = pd.date_range("2022-06-06 00:00", periods=48, freq="h", tz="US/Pacific")
+    df = pd.DataFrame({"observed": 1.0, "temperature": 60.0}, index=idx)
+    df.iloc[7, 0] = 0.0
+    try:
+        out = fl.hourly_reporting(df, electric=True).df
+    except Exception as ex:  # noqa
+        return None, "raised %s" % type(ex).__name__
+    flag = bool(out["interpolated_temperature"].iloc[7])
+    return (1 if flag else 0), flag
 
 
 def detect_dedup_policy():
@@ -998,7 +1034,7 @@ def caltrack_stream(run, seed, nsets):
         unc = {}
         for name in ALTS:
             a = alter(rep, name, seed % 1000 + ALTS.index(name) + k)
-            o = observe(lambda: model.predict(fl.caltrack_reporting(a.copy())))
+            o = observe(lambda: model.predict(fl.caltrack_reporting(a.copy(), electric=(k % 2 == 0))))
             obs[name] = o
             run.count((vlib.sha(case), name))
             run.dist("caltrack_outcome", "ok" if o["ok"] else o["err"])
@@ -1033,8 +1069,8 @@ def corpus_cases():
 def main():
     run = Run("C05")
     run.cov["rule"] = (
-        "paired runs: every reporting set is predicted with its usage column {unchanged, scaled, negated, shuffled, 30 % NaN, all NaN, "
-        "dropped} (+ hourly: gaps written into the data object: 30 % / one cell / one local day) and all pairs are compared "
+        "paired runs: every reporting set is predicted with its usage column {unchanged, scaled, negated, shuffled, 30 % NaN, 30 % exactly 0, x 0, all NaN, "
+        "dropped} (+ hourly: gaps written into the data object: 30 % / one local day) and all pairs are compared "
         "bit-wise on the timestamps predicted in both. daily/billing: synthetic documents (1-6 sub-models, dyadic coefficients) x "
         "frames of 1-250 local days, 5 zones, NaN/inf temperatures, injected or through the data class, each variant also "
         "compared row by row with Model/Rows.v in Coq; one really fitted daily and billing model. hourly: really fitted "
@@ -1080,6 +1116,14 @@ def main():
         run.corr_failures.append({"stream": "policy-probe", "impl": str(dgot), "model": "no dedup_policy of Model/HourlyFlow.v explains the probe"})
         dz = 0
     DEDUP["z"] = dz
+    zz, zgot = detect_zero_policy()
+    run.cov["zero_rule_detected"] = {0: "ZeroUsageCell (usage cell only)", 1: "ZeroWholeRow (weather cells wiped too)"}.get(
+        zz, "unrecognised: %s" % (zgot,))
+    run.log("zero rule of electricity data:", run.cov["zero_rule_detected"])
+    if zz is None:
+        run.corr_failures.append({"stream": "policy-probe", "impl": str(zgot), "model": "no zero_policy of Model/HourlyFlow.v explains the probe"})
+        zz = 0
+    DEDUP["zero"] = zz
 
     mz, mgot = detect_filler_clock()
     run.cov["daily_filler_clock_detected"] = {0: "FrameStart (clock of the first row of the frame)", 1: "ReadingClock"}.get(
@@ -1096,7 +1140,7 @@ def main():
     else:
         todo = None
 
-    nh = run.n(10, 60)
+    nh = run.n(8, 60)
     kits = []
     seeds = [run.rng.randrange(2**31) for _ in range(8)]
     if todo is None:
